@@ -36,7 +36,29 @@ def run_with_known(job, spec_blocks, kf, prop, keep=False):
     if entries:
         j = copy.copy(job)
         j.defines = list(job.defines) + [e["define"] for e in entries]
-    r = pipeline.run_job(j, spec_blocks, keep=keep)
+    # VERIF_RESULT_CACHE=<dir> (set by tools_runall.sh only, for ONE pass over all properties on
+    # one tree; the directory is created empty and removed by that script): a job shared by
+    # several properties is run once per pass; only clean passes are remembered
+    cdir = os.environ.get("VERIF_RESULT_CACHE")
+    cpath = os.path.join(cdir, job.name + ".pkl") if cdir else None
+    r = None
+    if cpath and os.path.exists(cpath):
+        import pickle
+        try:
+            with open(cpath, "rb") as f:
+                r = pickle.load(f)
+        except Exception:
+            r = None
+    if r is None:
+        r = pipeline.run_job(j, spec_blocks, keep=keep)
+        if cpath and not r.failures and r.undecided is None:
+            import pickle
+            try:
+                with open(cpath + ".tmp", "wb") as f:
+                    pickle.dump(r, f)
+                os.replace(cpath + ".tmp", cpath)
+            except Exception:
+                pass
     r.job = job
     r.known_lines = ["KNOWN-FINDING: property=%s %s" % (prop, e["what"])
                      for e in entries if prop in e["properties"]]
